@@ -143,6 +143,27 @@ Proof.
 Qed.
 Print Assumptions c01_noise_undisturbed_and_prologue.
 
+(* a panic anywhere in runHandshake is an error outcome: an endpoint that
+   completes has passed every stage on its path (its Reads and Writes on the
+   insecure connection, the early-data handler's Send and Received) without a
+   fault — so no fault position yields a completed session, let alone one
+   without a verified payload (the c01_noise_remote_is_signer theorems hold
+   for every party, faulty or not).  For every pair of parties and every network. *)
+Theorem c01_noise_panic_is_error : forall pi pr net rI rR,
+  run_pair pi pr net = (rI, rR) ->
+  (forall id k st, rI = Done id k st ->
+     faulty pi (FWrite 0) = false /\ faulty pi (FRead 0) = false /\ faulty pi FReceived = false /\
+     faulty pi FSend = false /\ faulty pi (FWrite 1) = false) /\
+  (forall id k st, rR = Done id k st ->
+     faulty pr (FRead 0) = false /\ faulty pr FSend = false /\ faulty pr (FWrite 0) = false /\
+     faulty pr (FRead 1) = false /\ faulty pr FReceived = false).
+Proof.
+  intros pi pr net rI rR H. apply run_pair_done in H. destruct H as [HI HR]. split; intros id k st Hd.
+  - destruct (HI _ _ _ Hd) as [F0 [stI [q [o Hf]]]]. apply init_finish_nofault in Hf. tauto.
+  - destruct (HR _ _ _ Hd) as [F0 [F1 [F2 [stR [q Hf]]]]]. apply resp_finish_nofault in Hf. tauto.
+Qed.
+Print Assumptions c01_noise_panic_is_error.
+
 (* ============================ TLS ============================================== *)
 
 (* tls_key_is_certified: PubKeyFromCertChain returns a key only for a chain of
@@ -394,24 +415,24 @@ Print Assumptions c01_upgrade_monitor_accepts_model.
 
 (* ---- non-vacuity ---------------------------------------------------------------- *)
 Example honest_run_completes :
-  let sc := mkSc (mkSide KA false false (Some KB) P0) (mkSide KB false false None P0) ENone None in
+  let sc := mkSc (mkSide KA false false (Some KB) P0) (mkSide KB false false None P0) ENone None None in
   wf_scenario sc = true /\
   map obs_of_res [fst (fst (run_scenario sc)); snd (fst (run_scenario sc))] = [mkObs 0 2 2; mkObs 0 1 1].
 Proof. vm_compute. split; reflexivity. Qed.
 
 (* the monitor rejects: an initiator completing on a flipped message 2 *)
 Example monitor_rejects_completion_on_edited_data :
-  monitor_case [1; 0;0; 1;0;0;2;0; 2;0;0;0;0; 1;2;1;0;40; 0;0;0;0;0; 1; 0;2;2; 5;0;0]%Z <> [].
+  monitor_case [1; 0;0; 1;0;0;2;0; 2;0;0;0;0; 1;2;1;0;40; 0;0;0;0;0; 0;0;0;0; 1; 0;2;2; 5;0;0]%Z <> [].
 Proof. vm_compute. discriminate. Qed.
 
 (* ... an endpoint reporting a peer whose key the remote does not hold (forged claim accepted) *)
 Example monitor_rejects_forged_identity :
-  monitor_case [1; 0;0; 1;0;0;2;0; 3;1;1;0;0; 0;0;0;0;0; 1;0;2;3;0; 1; 0;2;2; 9;0;0]%Z <> [].
+  monitor_case [1; 0;0; 1;0;0;2;0; 3;1;1;0;0; 0;0;0;0;0; 1;0;2;3;0; 0;0;0;0; 1; 0;2;2; 9;0;0]%Z <> [].
 Proof. vm_compute. discriminate. Qed.
 
 (* ... a responder that named A, completing with E *)
 Example monitor_rejects_unexpected_peer :
-  monitor_case [1; 0;0; 3;1;1;0;0; 2;0;0;1;0; 0;0;0;0;0; 1;1;3;3;0; 1; 9;0;0; 0;3;3]%Z <> [].
+  monitor_case [1; 0;0; 3;1;1;0;0; 2;0;0;1;0; 0;0;0;0;0; 1;1;3;3;0; 0;0;0;0; 1; 9;0;0; 0;3;3]%Z <> [].
 Proof. vm_compute. discriminate. Qed.
 
 (* TLS: an honest chain is accepted and certifies its key *)
@@ -441,4 +462,10 @@ Proof. vm_compute. discriminate. Qed.
 Example monitor_rejects_holepunch_other_peer : monitor_case [6; 0; 3; 2; 0; 1; 3; 3]%Z <> [].
 Proof. vm_compute. discriminate. Qed.
 Example monitor_rejects_inbound_upgrade_unexpected_peer : monitor_case [7; 0; 0; 0; 1; 2; 3; 1; 3; 3]%Z <> [].
+Proof. vm_compute. discriminate. Qed.
+
+(* the monitor rejects a responder that "completes" after a panic with the expected
+   peer's ID and no public key at all *)
+Example monitor_rejects_unverified_session_after_panic :
+  monitor_case [1; 0;0; 1;0;0;2;0; 2;1;0;3;0; 0;0;0;0;0; 0;0;0;0;0; 1;0;2;0; 1; 5;0;0; 0;3;0]%Z <> [].
 Proof. vm_compute. discriminate. Qed.
